@@ -159,7 +159,73 @@ def cases(rng, tier):
         if rng.random() < 0.12 and len(reqs) > 2:
             reqs[rng.randint(1, len(reqs) - 1)]["restart"] = True       # export / import into a fresh instance just before this request
         out.append({"t": "hist", "reqs": reqs})
+    # the client database in the library's own file store (client_db = AbstractFileSystem), shared with another worker / an admin tool that
+    # rotates a secret, lets it expire or narrows the allowed methods: "X's CURRENT, unexpired secret", whatever was cached before
+    for _ in range({"quick": 6, "thorough": 60, "search": 30}[tier]):
+        ops = [["req", "current", rng.choice(FS_EPS)]]
+        for _ in range(rng.randint(3, 9)):
+            k = rng.choice(["req", "req", "req", "rotate", "expire", "renew", "tick"])
+            if k == "req":
+                ops.append(["req", rng.choice(["current", "current", "previous", "first", "wrong"]), rng.choice(FS_EPS)])
+            elif k == "tick":
+                ops.append(["tick", rng.choice([0, 1, 3, 100])])
+            else:
+                ops.append([k])
+        out.append({"t": "fscdb", "ops": ops})
     return out
+
+
+FS_EPS = ["introspection", "token_revocation", "token"]
+_fs = None
+
+
+def _fs_env():
+    global _fs
+    if _fs is None:
+        import os
+        d = os.path.join(opbase.BASEDIR, "cdb-fs")
+        os.makedirs(d, exist_ok=True)
+        sv = opbase.make_op(extra={"client_db": {"class": "idpyoidc.storage.abfile.AbstractFileSystem", "kwargs": {"fdir": d, "value_conv": "idpyoidc.util.JSON"}}})
+        _fs = (sv, d)
+    return _fs
+
+
+def _fs_impl(c):
+    from idpyoidc.storage.abfile import AbstractFileSystem
+    sv, d = _fs_env()
+    clock.CLOCK.t = T0
+    admin = AbstractFileSystem(fdir=d, value_conv="idpyoidc.util.JSON")      # the other worker's handle on the same directory
+    first = "hemligt_hemligt_hemligt_hemligt_1"
+    rec = dict(admin["client_1"]); rec["client_secret"] = first; rec.pop("client_secret_expires_at", None); admin["client_1"] = rec
+    sv.context.cdb["client_1"]          # this provider has the record in its cache
+    cur, prev, n, expired = first, first, 0, False
+    steps = []
+    for op in c["ops"]:
+        if op[0] == "tick":
+            clock.CLOCK.t += op[1]; steps.append(["ok"]); continue
+        if op[0] == "rotate":
+            n += 1
+            prev, cur = cur, "rotated_secret_number_%02d_0123456789ab" % n
+            rec = dict(admin["client_1"]); rec["client_secret"] = cur; admin["client_1"] = rec
+            steps.append(["ok"]); continue
+        if op[0] in ("expire", "renew"):
+            expired = op[0] == "expire"
+            rec = dict(admin["client_1"]); rec["client_secret_expires_at"] = clock.CLOCK.t - 10 if expired else clock.CLOCK.t + 10**6; admin["client_1"] = rec
+            steps.append(["ok"]); continue
+        sec = {"current": cur, "previous": prev, "first": first, "wrong": "not-the-secret-not-the-secret-0000"}[op[1]]
+        ep = sv.get_endpoint(op[2])
+        body = {"client_id": "client_1", "client_secret": sec}
+        body.update({"token": "xyz"} if op[2] != "token" else {"grant_type": "authorization_code", "code": "no-such-code", "redirect_uri": "https://client_1.example.com/cb"})
+        try:
+            pr = ep.parse_request(body)
+            # refused for the credential, or got past client authentication (whatever the endpoint then makes of the rest)
+            how = "refused" if ("error" in pr and pr["error"] in ("invalid_client", "unauthorized_client")) else "authenticated"
+        except (ClientAuthenticationError, InvalidClient, UnknownClient, UnAuthorizedClient) as e:
+            how = "refused"
+        except Exception as e:
+            how = "authenticated"
+        steps.append([how, sec == cur and not expired])
+    return {"steps": steps}
 
 
 def _secret(E, cid, kind):
@@ -351,6 +417,8 @@ def _outcome(E, r, req, http_info):
 
 
 def impl(c):
+    if c["t"] == "fscdb":
+        return _fs_impl(c)
     E = env(fresh=True)
     ctx = E.s.context
     ctx.jti_db.clear() if hasattr(ctx.jti_db, "clear") else None
@@ -373,6 +441,8 @@ def _opt(x):
 
 
 def model_lines(c, obs):
+    if c["t"] == "fscdb":
+        return []          # the store under the client database is C13's model; here: the oracle
     E = env()
     lines = []
     for r, st in zip(c["reqs"], obs["steps"]):
@@ -395,6 +465,8 @@ def model_lines(c, obs):
 
 
 def compare(c, obs, outs):
+    if c["t"] == "fscdb":
+        return []
     req_outs = [o for o in outs if not o.startswith("ok")]
     d = []
     for i, (st, o) in enumerate(zip(obs["steps"], req_outs)):
@@ -418,6 +490,14 @@ def compare(c, obs, outs):
 
 
 def oracle(c, obs):
+    if c["t"] == "fscdb":
+        v = []
+        for i, (op, st) in enumerate(zip(c["ops"], obs["steps"])):
+            if op[0] == "req" and st[0] == "authenticated" and not st[1]:
+                v.append({"cls": "stale-or-wrong-secret-accepted", "step": i, "which": op[1], "endpoint": op[2], "store": "file"})
+            if op[0] == "req" and st[0] == "refused" and st[1]:
+                v.append({"cls": "current-secret-refused", "step": i, "endpoint": op[2], "store": "file"})
+        return v[:3]
     E = env()
     v = []
     seen = set()
@@ -484,11 +564,15 @@ def known_key(c, v, known):
 
 
 def classify(c, obs):
+    if c["t"] == "fscdb":
+        return "fscdb:" + str(sum(1 for o in c["ops"] if o[0] in ("rotate", "expire")))
     acc = sum(1 for s in obs["steps"] if s["out"][0] == "accepted")
     return f"hist:accepted={min(acc, 5)}"
 
 
 def nontrivial(c, obs):
+    if c["t"] == "fscdb":
+        return True
     return any(r["assertion"] or (r["basic"] and r["basic"]["kind"] != "right") for r in c["reqs"])
 
 
